@@ -67,7 +67,14 @@ def pure_locals(fn):
         if isinstance(x, ast.Assign) and len(x.targets) == 1 and isinstance(x.targets[0], ast.Name):
             val[x.targets[0].id] = x.value
     params = {a.arg for a in fn.args.args}
-    return {k: v for k, v in val.items() if cnt.get(k) == 1 and k not in params and not any(isinstance(y, (ast.Call, ast.Lambda, ast.ListComp, ast.GeneratorExp, ast.DictComp, ast.SetComp, ast.Yield)) for y in ast.walk(v))}
+    def pure(v):
+        for y in ast.walk(v):
+            if isinstance(y, ast.Call) and not (isinstance(y.func, ast.Name) and y.func.id in ("str", "len", "int", "float", "abs", "min", "max", "isinf")):
+                return False
+            if isinstance(y, (ast.Lambda, ast.ListComp, ast.GeneratorExp, ast.DictComp, ast.SetComp, ast.Yield)):
+                return False
+        return True
+    return {k: v for k, v in val.items() if cnt.get(k) == 1 and k not in params and pure(v)}
 
 
 def inline_locals(fn, node, depth=4):
